@@ -47,10 +47,21 @@ H = {
                                            wall=["fast"])),
 }
 
+# fixed on /repo HEAD (checks/c03.fixed.json): these replays must give sig=None now; with VERIF_REPO=<pre-fix tree> and
+# --expect-old they must still give their old signature
+FIXED = {"cms-builtin-hash-of-str", "cachedstore-flush-iterates-set", "randomeviction-choice-from-set",
+         "randomeviction-choice-from-set-multitier", "writeback-policy-keys-from-set",
+         "event-counter-reset-pre-built-events-repeat", "event-counter-reset-pre-built-events-after-others"}
 write = "--write" in sys.argv
+old = "--expect-old" in sys.argv
 bad = 0
 for slug, (pattern, scenario) in H.items():
     res = runner.safe_run(mod, scenario)
+    if slug in FIXED and not old:
+        ok = res["sig"] is None and not res.get("harness")
+        print(("ok  " if ok else "BAD ") + slug, "fixed: sig =", res["sig"], res.get("harness") or "")
+        bad += 0 if ok else 1
+        continue            # the recorded replay file (old signature and message) stays as it is
     ok = bool(res["sig"]) and fnmatch.fnmatchcase(res["sig"], pattern) and not res.get("harness")
     print(("ok  " if ok else "BAD ") + slug, res["sig"], res.get("harness") or "")
     if not ok:
